@@ -190,6 +190,10 @@ def _random_cons(rng, fmt, kind, tags):
 
 def gen(rng: random.Random, tier: str):
     cases = []
+    probe = mk_rt(2, [(0, 1)], 0, "list", [], {}, rng, tags=("corpus", "probe-deep"))
+    probe.data["probe"] = "deep"      # one-off probe (the case itself is trivial): see _deep_probe
+    probe.data.pop("dflt", None)
+    cases.append(probe)
     # corpus
     doc = (5, [(0, 2), (1, 2), (0, 3), (2, 3), (3, 4)])
     doc_attrs = {"0": {"s": 1}, "1": {"s": 1}, "2": {"s": 2}, "3": {"s": 2}, "4": {"s": 3}}
@@ -465,8 +469,50 @@ def _strip_null(a):
     return {k: _canon_val(v) for k, v in a.items() if not _isnull(v)}
 
 
+def _deep_probe():
+    """a DAG far deeper than anything the small-scope part reaches (a spine of 120, every pair of neighbours sharing a
+    child, so below any depth there are undirected cycles): each export lists every edge exactly once and the matching
+    constructor rebuilds exactly these edges"""
+    import bigtree
+    from bigtree import DAGNode
+    L = 120       # (the recursive ancestor walks of the constructors reach the interpreter's recursion limit near 300)
+    spine = [DAGNode("n%d" % i, lvl=i) for i in range(L)]
+    for a, b in zip(spine, spine[1:]):
+        a >> b
+    for i in range(L - 1):
+        t = DAGNode("t%d" % i, lvl=-i)
+        spine[i] >> t
+        spine[i + 1] >> t
+    want = sorted([("n%d" % i, "n%d" % (i + 1)) for i in range(L - 1)] + [("n%d" % i, "t%d" % i) for i in range(L - 1)]
+                  + [("n%d" % (i + 1), "t%d" % i) for i in range(L - 1)])
+    msgs = []
+    def edges_of(dag):
+        return sorted((p.node_name, c.node_name) for p, c in bigtree.dag_iterator(dag))
+    for start in (spine[0], spine[L // 2]):
+        try:
+            lst = bigtree.dag_to_list(start)
+            dct = bigtree.dag_to_dict(start, all_attrs=True)
+            frm = bigtree.dag_to_dataframe(start, all_attrs=True)
+            got = {"dag_to_list": sorted((p, c) for p, c in lst),
+                   "dag_to_dict": sorted((p, k) for k, v in dct.items() for p in v.get("parents", [])),
+                   "dag_to_dataframe": sorted((r["parent"], r["name"]) for r in frm.to_dict("records") if isinstance(r["parent"], str))}
+            back = {"list_to_dag": edges_of(bigtree.list_to_dag(lst)), "dict_to_dag": edges_of(bigtree.dict_to_dag(dct)),
+                    "dataframe_to_dag": edges_of(bigtree.dataframe_to_dag(frm))}
+        except Exception as e:  # noqa: BLE001
+            msgs.append(f"exporting / re-importing a spine of {L} with shared leaves from {start.node_name} raised {type(e).__name__}: {str(e)[:100]}")
+            continue
+        for what, g in list(got.items()) + list(back.items()):
+            if g != want:
+                missing = [e for e in want if e not in set(g)][:4]
+                msgs.append(f"{what} from {start.node_name} on a spine of {L} with shared leaves: {len(g)} edges, {len(want)} exist; "
+                            f"missing {missing}, repeated {len(g) - len(set(g))}")
+    return msgs
+
+
 def oracle(case):
     d = case.data
+    if d.get("probe") == "deep":
+        return _deep_probe()
     msgs = []
     names = d["names"]
     name_id = {nm: i for i, nm in enumerate(names)}
